@@ -280,3 +280,21 @@ fn kx_m_zero_copy_ops_k8() {
     if j < vcap { assert!(unsafe { *base.add(j) } == data[j]); }
     core::mem::forget(b);
 }
+
+// @ob props=C01,C03,C08,C18 tier=quick kind=Kbounded bound="allocation size 8" fns=shared_v_to_mut,release_shared,From<Bytes>for_BytesMut
+#[kani::proof]
+#[kani::unwind(10)]
+fn kx_sharedv_into_mut_shared_copies() {
+    // frozen view that is NOT unique: Into<BytesMut> copies and gives up exactly one reference
+    let (base, vcap) = alloc_fixed(8);
+    let data = fill(base, vcap);
+    let (b, g) = sharedv_on(base, vcap, 2);
+    let m: BytesMut = b.into();
+    assert!(m.len() == g.len && (g.len == 0 || m.as_ptr() as usize != base as usize + g.off));
+    let i: usize = kani::any();
+    if i < g.len { assert!(m[i] == data[g.off + i]); }
+    assert!(count(&g) == 1 && block_intact(&g));
+    let j: usize = kani::any();
+    if j < vcap { assert!(unsafe { *base.add(j) } == data[j]); }
+    drop(m);
+}
